@@ -151,7 +151,7 @@ class C13(Check):
                 opts["maxit"] = rng.choice([1, 5, 11, 21, 40])
             if rng.random() < 0.6:
                 opts["y"] = rng.choice([1, 1, 2, 3])
-            opts["s"] = rng.randint(0, 2 ** 31 - 1)
+            opts["s"] = rng.choice([rng.randint(0, 2 ** 31 - 1)] * 6 + [0, 1, 2 ** 31 - 1]) if k >= 3 else [0, 1, 2 ** 31 - 1][k]
             if rng.random() < 0.5:
                 opts["o"] = rng.choice(["out", "results", "res_dir"])
             adjname = rng.choice(["adjacency.dat", "adj.txt"])
@@ -394,7 +394,7 @@ class C14(Check):
                         cases.append(" ".join([cid, "readaff", str(int(assort)), str(K), str(size), hexbytes(text)]))
                         meta[cid] = ("ok", assort, K, L, diag, text, size)
                     # shape mismatches: columns, layers, layer id out of range
-                    for kind in ("cols+", "cols-", "layers+", "layers-", "layerid", "ragged"):
+                    for kind in ("cols+", "cols-", "layers+", "layers-", "layerid", "ragged", "compensated-last", "compensated-first"):
                         Kf, Lf = K, L
                         if kind == "cols+":
                             Kf = K + 1
@@ -410,6 +410,14 @@ class C14(Check):
                         text = render_affinity(rng, diag, Kf, Lf, shuffle=False)
                         if kind == "layerid":
                             text = re.sub(r"(?m)^%d(\s)" % (Lf - 1), r"%d\1" % (L + rng.randint(0, 3)), text)
+                        if kind.startswith("compensated"):
+                            # one line a value short, another a value long: the total is still K*L
+                            if L < 2:
+                                continue
+                            rows = [[str(a2)] + [fmt6(x) for x in diag[a2]] for a2 in range(L)]
+                            src_row, dst_row = (0, L - 1) if kind.endswith("last") else (L - 1, 0)
+                            rows[dst_row].append(rows[src_row].pop())
+                            text = "\n".join(" ".join(r) for r in rows) + "\n"
                         if kind == "ragged":
                             lines = text.rstrip("\n").split("\n")
                             i = rng.randrange(len(lines))
@@ -518,7 +526,8 @@ class C14(Check):
 
 def mutate(rng, text):
     """byte/token-level mutation of a file"""
-    kind = rng.choice(["ragged", "extra", "missing", "nonnum", "huge", "blank", "cr", "comment", "byte", "neg", "empty", "dupe", "float", "trunc"])
+    kind = rng.choice(["ragged", "extra", "missing", "nonnum", "huge", "blank", "cr", "comment", "byte", "neg", "empty", "dupe", "float", "trunc",
+                       "movetok", "movetok"])
     lines = text.split("\n")
     i = rng.randrange(len(lines)) if lines else 0
     toks = lines[i].split() if lines else []
@@ -556,6 +565,16 @@ def mutate(rng, text):
     elif kind == "float" and toks:
         toks[rng.randrange(len(toks))] = rng.choice(["1.5", "0.25", "2.0", ".5", "1e-7"])
         lines[i] = " ".join(toks)
+    elif kind == "movetok":
+        # move the last token of one line to the end of another (counts compensate)
+        idx = [n for n, l in enumerate(lines) if len(l.split()) >= 2 and not l.lstrip().startswith("#")]
+        if len(idx) >= 2:
+            a, b = rng.sample(idx, 2)
+            if rng.random() < 0.5:
+                a, b = min(a, b), max(a, b)
+            ta = lines[a].split()
+            lines[b] = lines[b].rstrip() + " " + ta.pop()
+            lines[a] = " ".join(ta)
     elif kind == "trunc":
         t = "\n".join(lines)
         return t[:rng.randrange(len(t) + 1)]
